@@ -4,9 +4,14 @@ import (
 	"fmt"
 	"io"
 	"os"
+	"sync"
 )
 
 type fileDisk struct {
+	// protects the RAM copies of the parts, that are read by part readers
+	// and dropped by Finalize
+	mutex sync.Mutex
+
 	fpath     string
 	f         *os.File
 	parts     []*partDisk
@@ -27,6 +32,9 @@ func newFileDisk(fpath string) (File, error) {
 
 // Finalize implements File.
 func (s *fileDisk) Finalize() {
+	s.mutex.Lock()
+	defer s.mutex.Unlock()
+
 	if len(s.parts) > 0 {
 		// set size of last part
 		lastPart := s.parts[len(s.parts)-1]
